@@ -1,3 +1,4 @@
+@property
 def spec(self):
     if self.__feedback_connection_name in self.cells_:
         return self.get_cell(self.__feedback_connection_name, self.__feedfwd_neuron_name)
